@@ -35,6 +35,7 @@ MIN_CLASSES = {
         "edit:change-ignored": 100,
         "edit:insert-meta-member": 30,
         "edit:inside-meta": 20,
+        "edit:insert-meta-nested": 20,
         "edit:optional-none": 100,
         "class-variant": 100,
         "other-workspace": 100,
